@@ -73,6 +73,7 @@ fn rows_for<'a>(forms: &'a [Form], prop: &str) -> Vec<&'a Form> {
         .filter(|f| match prop {
             "C08" => f.a.is_mem() || f.b.is_mem() || matches!(f.mn.as_str(), "JMP" | "JSR" | "BSR" | "RTS" | "RTE" | "TRAPA"),
             "C20" => true,
+            "C09" => f.mn == "MOV" && f.sz >= 2 && (f.a.is_mem() || f.b.is_mem()),
             _ => mns.contains(&f.mn.as_str()),
         })
         .collect()
@@ -92,6 +93,7 @@ fn knobs_for(prop: &str) -> Knobs {
     match prop {
         "C05" | "C06" => Knobs { uppers: vec![0, 0, 0x01, 0x80, 0xff, 0x5a], ..base },
         "C08" => Knobs { uppers: vec![0x00, 0x01, 0x7f, 0x80, 0xff, 0x5a, 0xa5], pool: Pool::Edges, ..base },
+        "C09" => Knobs { pool: Pool::Edges, ..base },
         "C20" => Knobs { bus: BUS_SETTINGS.to_vec(), pcs: vec![0xffc000, 0x400000, 0x41a000, 0xffe100, 0x5ff000], ..base },
         _ => base,
     }
